@@ -1105,6 +1105,21 @@ func TestCheck(t *testing.T) {
 		}
 		return 0
 	}
+	// development aid: C11_FAMILIES=3,4,5,6 restricts the run to those families of worlds (0 fresh boot / old-token
+	// reload, 1 token-only pairs, 2 chains, 3-5 source contents at boot / as a step / padded, 6 restart-only setting +
+	// edit, 7 other-deployment pairs). Such a run is never exhaustive and skips the vacuity guards.
+	restricted := false
+	if only := os.Getenv("C11_FAMILIES"); only != "" {
+		restricted = true
+		var keep []cfgSpec
+		for _, s := range bootable {
+			if member(fmt.Sprint(family(s)), strings.Split(only, ",")) {
+				keep = append(keep, s)
+			}
+		}
+		bootable = keep
+		r.NotExhaustive("development run restricted to the world families " + only)
+	}
 	var size, idx [8]int
 	for _, s := range bootable {
 		size[family(s)]++
@@ -1151,7 +1166,7 @@ func TestCheck(t *testing.T) {
 	if n := r.Counter("chain_steps_refused_although_every_source_resolvable"); n > 0 {
 		r.NotExhaustive(fmt.Sprintf("%d reloads of a reload chain were refused by the tree although every referenced token source could be resolved; the table was judged against what stayed in force", n))
 	}
-	if !k.stopped {
+	if !k.stopped && !restricted {
 		for _, c := range []string{"reloads_applied", "reloads_rejected_restart_required", "primers_passed", "content_worlds", "reload_pairs_restart_only_setting_plus_edit",
 			"chain_steps_applied", "chain_steps_refused_source_unresolvable", "chains_ending_in_refused_reload",
 			"chains_with_rotated_content_loaded_by_reload_of_unchanged_file", "chains_with_refused_reload_retried_after_providing_the_source"} {
@@ -1184,7 +1199,7 @@ func TestCheck(t *testing.T) {
 			adminOpen[strings.TrimPrefix(s, "admin-unconfigured ")] = k.stats[s]
 		}
 	}
-	if !k.stopped {
+	if !k.stopped && !restricted {
 		for _, surf := range []string{"pull-http", "pull-grpc"} {
 			for _, op := range pullOps {
 				if eff[surf+" "+op] == 0 {
